@@ -345,7 +345,7 @@ Proof.
   specialize (T Hne). destruct (fs_remove_some _ _ _ T) as (fs3 & R). rewrite R.
   destruct (fs_remove_spec _ _ _ R) as (R1 & R2 & R3).
   eexists. split; [reflexivity|]. cbn [with_fs p_fs p_stdout].
-  split; [inversion O; reflexivity|]. split; [assumption|].
+  split; [injection O as O'; exact O'|]. split; [assumption|].
   intros q Hq. rewrite R2 by (intro; subst; apply Hq; reflexivity).
   apply F1; [intro; subst; apply Hq; reflexivity | discriminate].
 Qed.
@@ -400,7 +400,8 @@ Lemma getset_unknown_nonzero_proof : forall decode arc samples prefix output tmp
 Proof.
   intros decode arc samples prefix output tmp st ar good bad rest Hopen Er Hall Hbad Hc Hout.
   unfold getset_command. rewrite Hopen, Er.
-  destruct (good ++ bad :: rest) as [|n0 names0] eqn:En; [destruct good; discriminate|]. rewrite <- En. clear En n0 names0.
+  assert (Hnn : exists n0 l0, good ++ bad :: rest = n0 :: l0) by (destruct good; cbn [app]; eauto).
+  destruct Hnn as (n0 & l0 & En). rewrite En. cbv iota. rewrite <- En. clear En n0 l0.
   destruct output as [o|].
   - destruct (Hout o eq_refl) as (Hot & Hco). unfold fs_create. rewrite Hco.
     set (st1 := with_fs st (fs_set (p_fs st) o [])).
@@ -417,7 +418,7 @@ Proof.
   - destruct (loop_bad ar tmp good bad rest st SinkStdout (p_stdout st) Hall Hbad Hc I eq_refl)
       as (st2 & L & O & T & Nil & _).
     rewrite L. cbn [sink_path out_content] in *.
-    exists st2. split; [reflexivity|]. split; [inversion O; reflexivity|].
+    exists st2. split; [reflexivity|]. split; [injection O as O'; exact O'|].
     split; [assumption|]. intro Hg. rewrite (Nil Hg). reflexivity.
 Qed.
 
@@ -458,4 +459,402 @@ Proof.
     destruct (getset_composes_stdout_proof decode arc samples prefix tmp st ar Hopen Hne Hall Hc)
       as (st'' & E & A & _).
     rewrite H0 in E. inversion E; subst. rewrite Er in A. exact A.
+Qed.
+
+(* ------------------------------------------------------------------ listset / listctg *)
+Lemma emit_lines_ok : forall ls output st,
+  (forall o, output = Some o -> creatable (p_fs st) o = true) ->
+  exists st', emit_lines ls output st = (Zero, st') /\
+    match output with
+    | None => p_stdout st' = p_stdout st ++ lines ls /\ p_fs st' = p_fs st
+    | Some o => fs_read (p_fs st') o = Some (lines ls) /\ p_stdout st' = p_stdout st /\
+                (forall q, o <> q -> fs_read (p_fs st') q = fs_read (p_fs st) q)
+    end.
+Proof.
+  intros ls output st Hc. unfold emit_lines. destruct output as [o|].
+  - unfold fs_create. rewrite (Hc o eq_refl).
+    pose proof (fs_write_all_append (map (fun s => s ++ [ch_nl]) ls) (fs_set (p_fs st) o []) o []
+                  (fs_read_set_same _ _ _)) as W.
+    cbn zeta in W. cbn [length app] in W. destruct W as (A & _ & C & _).
+    eexists. split; [reflexivity|]. cbn [with_fs p_fs p_stdout].
+    split; [exact A|]. split; [reflexivity|].
+    intros q Hq. rewrite C by assumption. apply fs_read_set_other. assumption.
+  - eexists. split; [reflexivity|]. split; reflexivity.
+Qed.
+
+Lemma emit_lines_uncreatable : forall ls o st, creatable (p_fs st) o = false ->
+  emit_lines ls (Some o) st = (NonZero, st).
+Proof. intros. unfold emit_lines, fs_create. rewrite H. reflexivity. Qed.
+
+Lemma listset_ok_proof : forall decode arc output st ar,
+  open_archive decode (p_fs st) arc = Some ar ->
+  (forall o, output = Some o -> creatable (p_fs st) o = true) ->
+  exists st', listset_command decode arc output st = (Zero, st') /\
+    match output with
+    | None => p_stdout st' = p_stdout st ++ lines (map fst ar) /\ p_fs st' = p_fs st
+    | Some o => fs_read (p_fs st') o = Some (lines (map fst ar)) /\ p_stdout st' = p_stdout st /\
+                (forall q, o <> q -> fs_read (p_fs st') q = fs_read (p_fs st) q)
+    end.
+Proof.
+  intros decode arc output st ar Hopen Hc. unfold listset_command. rewrite Hopen.
+  apply emit_lines_ok. assumption.
+Qed.
+
+Lemma listctg_lines_ok : forall ar samples,
+  Forall (fun s => find_sample ar s <> None) samples ->
+  listctg_lines ar samples =
+  Some (flat_map (fun s => map (fun c => s ++ [ch_tab] ++ c)
+                               (match list_contigs ar s with Some l => l | None => [] end)) samples).
+Proof.
+  intros ar samples H. induction H as [|s samples Hs _ IH]; [reflexivity|].
+  cbn [listctg_lines flat_map]. unfold list_contigs in *.
+  destruct (find_sample ar s); [|contradiction]. rewrite IH. reflexivity.
+Qed.
+
+Lemma listctg_lines_bad : forall ar samples,
+  Exists (fun s => find_sample ar s = None) samples -> listctg_lines ar samples = None.
+Proof.
+  intros ar samples H. induction H as [s samples Hs|s samples _ IH]; cbn [listctg_lines]; unfold list_contigs.
+  - rewrite Hs. reflexivity.
+  - destruct (find_sample ar s); [rewrite IH|]; reflexivity.
+Qed.
+
+Lemma listctg_ok_proof : forall decode arc samples output st ar,
+  open_archive decode (p_fs st) arc = Some ar ->
+  Forall (fun s => find_sample ar s <> None) samples ->
+  (forall o, output = Some o -> creatable (p_fs st) o = true) ->
+  exists st', listctg_command decode arc samples output st = (Zero, st') /\
+    let text := lines (flat_map (fun s => map (fun c => s ++ [ch_tab] ++ c)
+                    (match list_contigs ar s with Some l => l | None => [] end)) samples) in
+    match output with
+    | None => p_stdout st' = p_stdout st ++ text /\ p_fs st' = p_fs st
+    | Some o => fs_read (p_fs st') o = Some text /\ p_stdout st' = p_stdout st /\
+                (forall q, o <> q -> fs_read (p_fs st') q = fs_read (p_fs st) q)
+    end.
+Proof.
+  intros decode arc samples output st ar Hopen Hall Hc. unfold listctg_command.
+  rewrite Hopen, (listctg_lines_ok _ _ Hall). apply emit_lines_ok. assumption.
+Qed.
+
+(* ------------------------------------------------------------------ create *)
+Lemma create_zero_implies_archive_proof : forall f output pr st st',
+  create_archive f output pr st = (Zero, st') ->
+  exists cap nt cg bytes, create_dispatch f = DProceed cap nt cg /\ pr = PipeFinalized bytes /\
+    fs_read (p_fs st') output = Some bytes /\ p_stdout st' = p_stdout st.
+Proof.
+  intros f output pr st st' H. unfold create_archive in H.
+  destruct (create_dispatch f) as [e|cap nt cg]; [discriminate|].
+  destruct pr as [[b|]|b]; try discriminate.
+  inversion H; subst. exists cap, nt, cg, b. cbn [with_fs p_fs p_stdout].
+  repeat split; try reflexivity. apply fs_read_set_same.
+Qed.
+
+Lemma cap_err_cases : forall (o : outcome N), (exists v, o = Ok v) \/ (forall v, o <> Ok v).
+Proof. intros [v| |]; [left; eauto | right; discriminate | right; discriminate]. Qed.
+
+Lemma dispatch_proceed_inv : forall f cap nt cg, create_dispatch f = DProceed cap nt cg ->
+  f_batch f = false /\ f_adaptive f = false /\ f_concatenated f = false /\ f_cpp_agc f = false /\
+  f_output_utf8 f = true /\ f_ninputs f <> 0 /\ parse_capacity (f_checked f) (f_qcap f) = Ok cap /\
+  nt = num_threads_of f.
+Proof.
+  intros f cap nt cg H. unfold create_dispatch in H.
+  destruct ((0 <? f_verbosity f) && negb (f_batch f));
+    [destruct (parse_capacity (f_checked f) (f_qcap f)) eqn:P0; cbn [cap_err] in H; try discriminate|];
+    (destruct (f_cpp_agc f); [discriminate|]; destruct (f_batch f); cbn [negb] in H; [discriminate|];
+     destruct (f_adaptive f); cbn [orb] in H; [discriminate|];
+     destruct (f_concatenated f); cbn [orb] in H; [discriminate|];
+     destruct (f_output_utf8 f); cbn [negb] in H; [|discriminate];
+     destruct (parse_capacity (f_checked f) (f_qcap f)) eqn:P; cbn [cap_err] in H; try discriminate;
+     destruct (f_ninputs f =? 0) eqn:Z; [discriminate|]; inversion H; subst;
+     apply N.eqb_neq in Z; repeat split; try reflexivity; try assumption).
+Qed.
+
+Lemma create_dispatch_proceeds_iff_proof : forall f,
+  (exists cap nt cg, create_dispatch f = DProceed cap nt cg) <->
+  (f_batch f = false /\ f_adaptive f = false /\ f_concatenated f = false /\ f_cpp_agc f = false /\
+   f_output_utf8 f = true /\ f_ninputs f <> 0 /\ exists cap, parse_capacity (f_checked f) (f_qcap f) = Ok cap).
+Proof.
+  intro f. split.
+  - intros (cap & nt & cg & H). apply dispatch_proceed_inv in H.
+    destruct H as (A & B & C & D & E & F & G & _). repeat split; try assumption. exists cap. assumption.
+  - intros (A & B & C & D & E & F & (cap & G)). unfold create_dispatch.
+    rewrite A, B, C, D, E, G. apply N.eqb_neq in F. cbn [negb andb orb cap_err].
+    destruct (0 <? f_verbosity f); cbn [andb cap_err]; rewrite F; do 3 eexists; reflexivity.
+Qed.
+
+Lemma create_failures : forall f output pr st,
+  f_batch f = true \/ f_adaptive f = true \/ f_concatenated f = true \/ f_cpp_agc f = true \/
+  f_output_utf8 f = false \/ f_ninputs f = 0 \/
+  (forall v, parse_capacity (f_checked f) (f_qcap f) <> Ok v) \/
+  (exists l, pr = PipeFail l) ->
+  fst (create_archive f output pr st) = NonZero.
+Proof.
+  intros f output pr st H. unfold create_archive.
+  destruct (create_dispatch f) as [e|cap nt cg] eqn:D; [reflexivity|].
+  assert (P : exists cap nt cg, create_dispatch f = DProceed cap nt cg) by eauto.
+  apply create_dispatch_proceeds_iff_proof in P.
+  destruct P as (P1 & P2 & P3 & P4 & P5 & P6 & (c & P7)).
+  destruct H as [H|[H|[H|[H|[H|[H|[H|(l & H)]]]]]]]; try congruence;
+    try (exfalso; apply (H c); assumption).
+  subst pr. destruct l; reflexivity.
+Qed.
+
+Lemma num_threads_positive_proof : forall f cap nt cg,
+  1 <= f_ncpus f -> create_dispatch f = DProceed cap nt cg -> 1 <= nt.
+Proof.
+  intros f cap nt cg Hn H. apply dispatch_proceed_inv in H.
+  destruct H as (_ & _ & _ & _ & _ & _ & _ & ->).
+  unfold num_threads_of, auto_threads.
+  destruct (f_threads f) as [t|]; [destruct (0 <? t) eqn:T; [apply N.ltb_lt in T; lia|]|];
+    (destruct (f_ncpus f <? 8) eqn:E; [assumption | apply N.ltb_ge in E; lia]).
+Qed.
+
+(* create exits 0, and what finalize wrote decodes to an archive registering every input sample (C01/C15):
+   listset on the result prints every input sample *)
+Lemma create_then_listset_proof : forall decode f output pr st st' ar inputs,
+  create_archive f output pr st = (Zero, st') ->
+  (forall bytes, pr = PipeFinalized bytes -> decode bytes = Some ar /\ incl inputs (map fst ar)) ->
+  exists st'', listset_command decode output None st' = (Zero, st'') /\
+    p_stdout st'' = p_stdout st' ++ lines (map fst ar) /\
+    (forall s, In s inputs -> In s (map fst ar)).
+Proof.
+  intros decode f output pr st st' ar inputs H Hpipe.
+  destruct (create_zero_implies_archive_proof _ _ _ _ _ H) as (cap & nt & cg & b & _ & Hpr & Hr & _).
+  destruct (Hpipe b Hpr) as (Hd & Hin).
+  assert (Hopen : open_archive decode (p_fs st') output = Some ar) by (unfold open_archive; rewrite Hr; exact Hd).
+  destruct (listset_ok_proof decode output None st' ar Hopen) as (st'' & E & A & _); [discriminate|].
+  exists st''. split; [assumption|]. split; [assumption|]. exact Hin.
+Qed.
+
+(* ------------------------------------------------------------------ every error path exits non-zero *)
+Lemma getset_failures : forall decode arc samples prefix output tmp st,
+  open_archive decode (p_fs st) arc = None \/
+  (exists ar, open_archive decode (p_fs st) arc = Some ar /\
+     (requested ar samples prefix = [] \/
+      Exists (fun n => get_sample ar n = None) (requested ar samples prefix) \/
+      (exists o, output = Some o /\ creatable (p_fs st) o = false) \/
+      creatable (p_fs st) tmp = false)) ->
+  fst (getset_command decode arc samples prefix output tmp st) = NonZero.
+Proof.
+  intros decode arc samples prefix output tmp st H. unfold getset_command.
+  destruct H as [H|(ar & Hopen & H)]; [rewrite H; reflexivity|]. rewrite Hopen.
+  destruct (requested ar samples prefix) as [|n names] eqn:Er; [reflexivity|].
+  destruct H as [H|[H|[(o & -> & H)|H]]]; [discriminate| | |].
+  - destruct output as [o|]; [destruct (fs_create (p_fs st) o); [|reflexivity]|];
+      match goal with |- context [getset_loop ?a ?b ?c ?d ?e] =>
+        pose proof (loop_exists_bad a c b d e H) as L; destruct (getset_loop a b c d e) as [[|] st2] end;
+      cbn [fst] in L; try discriminate; reflexivity.
+  - unfold fs_create. rewrite H. reflexivity.
+  - assert (Hne : n :: names <> []) by discriminate.
+    destruct output as [o|]; [destruct (fs_create (p_fs st) o) as [fs1|] eqn:Ec; [|reflexivity]|].
+    + apply fs_create_spec in Ec. destruct Ec as (_ & ->).
+      pose proof (loop_uncreatable ar tmp (n :: names) (with_fs st (fs_set (p_fs st) o []))
+                    (SinkFile {| h_path := o; h_off := 0 |}) Hne H) as L.
+      destruct (getset_loop ar (n :: names) tmp _ _) as [[|] st2]; cbn [fst] in L; try discriminate; reflexivity.
+    + pose proof (loop_uncreatable ar tmp (n :: names) st SinkStdout Hne H) as L.
+      destruct (getset_loop ar (n :: names) tmp _ _) as [[|] st2]; cbn [fst] in L; try discriminate; reflexivity.
+Qed.
+
+Lemma failures_nonzero_proof : forall decode tmp st,
+  (forall arc samples prefix output,
+     open_archive decode (p_fs st) arc = None \/
+     (exists ar, open_archive decode (p_fs st) arc = Some ar /\
+        (requested ar samples prefix = [] \/
+         Exists (fun n => get_sample ar n = None) (requested ar samples prefix) \/
+         (exists o, output = Some o /\ creatable (p_fs st) o = false) \/
+         creatable (p_fs st) tmp = false)) ->
+     fst (run_main decode tmp (CmdGetset arc samples prefix output) st) = NonZero) /\
+  (forall arc output,
+     open_archive decode (p_fs st) arc = None \/
+     (exists o, output = Some o /\ creatable (p_fs st) o = false) ->
+     fst (run_main decode tmp (CmdListset arc output) st) = NonZero) /\
+  (forall arc samples output,
+     open_archive decode (p_fs st) arc = None \/
+     (exists ar, open_archive decode (p_fs st) arc = Some ar /\
+                 Exists (fun s => find_sample ar s = None) samples) \/
+     (exists o, output = Some o /\ creatable (p_fs st) o = false) ->
+     fst (run_main decode tmp (CmdListctg arc samples output) st) = NonZero) /\
+  (forall f output pr,
+     f_batch f = true \/ f_adaptive f = true \/ f_concatenated f = true \/ f_cpp_agc f = true \/
+     f_output_utf8 f = false \/ f_ninputs f = 0 \/
+     (forall v, parse_capacity (f_checked f) (f_qcap f) <> Ok v) \/
+     (exists l, pr = PipeFail l) ->
+     fst (run_main decode tmp (CmdCreate f output pr) st) = NonZero).
+Proof.
+  intros decode tmp st. split; [|split; [|split]].
+  - intros. cbn [run_main]. apply getset_failures. assumption.
+  - intros arc output H. cbn [run_main]. unfold listset_command.
+    destruct H as [H|(o & -> & H)]; [rewrite H; reflexivity|].
+    destruct (open_archive decode (p_fs st) arc); [|reflexivity].
+    rewrite emit_lines_uncreatable by assumption. reflexivity.
+  - intros arc samples output H. cbn [run_main]. unfold listctg_command.
+    destruct H as [H|[(ar & Hopen & H)|(o & -> & H)]].
+    + rewrite H. reflexivity.
+    + rewrite Hopen, (listctg_lines_bad _ _ H). reflexivity.
+    + destruct (open_archive decode (p_fs st) arc); [|reflexivity].
+      destruct (listctg_lines a samples); [|reflexivity].
+      rewrite emit_lines_uncreatable by assumption. reflexivity.
+  - intros. cbn [run_main]. apply create_failures. assumption.
+Qed.
+
+(* ------------------------------------------------------------------ 80-column wrapping *)
+Lemma chunks_fuel_spec : forall fuel l, (length l <= fuel)%nat ->
+  concat (chunks_fuel fuel l) = l /\
+  Forall (fun c => (1 <= length c <= 80)%nat) (chunks_fuel fuel l) /\
+  Forall (fun c => length c = 80%nat) (removelast (chunks_fuel fuel l)).
+Proof.
+  induction fuel as [|f IH]; intros l Hl.
+  - destruct l; [|cbn [length] in Hl; lia]. cbn [chunks_fuel concat removelast]. auto.
+  - destruct l as [|x l']; [cbn [chunks_fuel concat removelast]; auto|].
+    set (l := x :: l') in *. assert (Hpos : (1 <= length l)%nat) by (subst l; cbn [length]; lia).
+    change (chunks_fuel (S f) l) with (firstn 80 l :: chunks_fuel f (skipn 80 l)).
+    assert (Hs : (length (skipn 80 l) <= f)%nat) by (rewrite skipn_length; lia).
+    destruct (IH _ Hs) as (A & B & C).
+    split; [cbn [concat]; rewrite A; apply firstn_skipn|].
+    split.
+    + constructor; [rewrite firstn_length; lia | assumption].
+    + destruct (chunks_fuel f (skipn 80 l)) as [|c cs] eqn:E; [constructor|].
+      change (removelast (firstn 80 l :: c :: cs)) with (firstn 80 l :: removelast (c :: cs)).
+      constructor; [|assumption].
+      rewrite firstn_length. apply Nat.min_l.
+      destruct (skipn 80 l) as [|y r] eqn:Es.
+      * destruct f; discriminate E.
+      * assert (length (skipn 80 l) = S (length r)) by (rewrite Es; reflexivity).
+        rewrite skipn_length in H. lia.
+Qed.
+
+Lemma wrap80_proof : forall l,
+  concat (chunks80 l) = l /\
+  Forall (fun c => (1 <= length c <= 80)%nat) (chunks80 l) /\
+  Forall (fun c => length c = 80%nat) (removelast (chunks80 l)).
+Proof. intro l. apply chunks_fuel_spec. apply Nat.le_refl. Qed.
+
+(* ------------------------------------------------------------------ parse_capacity *)
+Definition dstep (a c : N) : N := a * 10 + (c - 48).
+
+Lemma fold_dstep_ge : forall ds a, a <= fold_left dstep ds a.
+Proof.
+  induction ds as [|c r IH]; intro a; cbn [fold_left]; [lia|].
+  eapply N.le_trans; [|apply IH]. unfold dstep. lia.
+Qed.
+
+Lemma parse_digits_spec : forall ds acc, forallb is_digit ds = true -> acc < two64 ->
+  parse_digits acc ds = if fold_left dstep ds acc <? two64 then Some (fold_left dstep ds acc) else None.
+Proof.
+  induction ds as [|c r IH]; intros acc H Hacc.
+  - cbn [parse_digits fold_left]. apply N.ltb_lt in Hacc. rewrite Hacc. reflexivity.
+  - cbn [forallb] in H. apply andb_true_iff in H. destruct H as [Hc Hr].
+    cbn [parse_digits fold_left]. rewrite Hc. fold (dstep acc c).
+    destruct (dstep acc c <? two64) eqn:E; [apply IH; [assumption | apply N.ltb_lt; assumption]|].
+    apply N.ltb_ge in E. pose proof (fold_dstep_ge r (dstep acc c)) as G.
+    destruct (fold_left dstep r (dstep acc c) <? two64) eqn:E2; [|reflexivity].
+    apply N.ltb_lt in E2. lia.
+Qed.
+
+Lemma parse_usize_digits : forall ds, ds <> [] -> forallb is_digit ds = true -> dec_value ds < two64 ->
+  parse_usize ds = Some (dec_value ds).
+Proof.
+  intros ds Hne Hd Hv. destruct ds as [|c r]; [contradiction Hne; reflexivity|].
+  unfold parse_usize. assert (Hc : c =? 43 = false).
+  { cbn [forallb] in Hd. apply andb_true_iff in Hd. destruct Hd as [Hc _]. unfold is_digit in Hc.
+    apply andb_true_iff in Hc. destruct Hc as [Hc _]. apply N.leb_le in Hc. apply N.eqb_neq. lia. }
+  rewrite Hc, (parse_digits_spec _ _ Hd) by reflexivity. unfold dec_value in Hv. fold dstep in Hv.
+  apply N.ltb_lt in Hv. unfold dec_value. fold dstep. rewrite Hv. reflexivity.
+Qed.
+
+Lemma trim_start_nows : forall s, forallb (fun c => negb (is_ws c)) s = true -> trim_start s = s.
+Proof.
+  intros [|c r] H; [reflexivity|]. cbn [forallb] in H. apply andb_true_iff in H. destruct H as [H _].
+  cbn [trim_start]. destruct (is_ws c); [discriminate | reflexivity].
+Qed.
+
+Lemma forallb_rev : forall (f : N -> bool) s, forallb f s = true -> forallb f (rev s) = true.
+Proof.
+  intros f s H. apply forallb_forall. intros x Hx. apply in_rev in Hx.
+  rewrite forallb_forall in H. apply H. assumption.
+Qed.
+
+Lemma trim_nows : forall s, forallb (fun c => negb (is_ws c)) s = true -> trim s = s.
+Proof.
+  intros s H. unfold trim. rewrite (trim_start_nows s H).
+  rewrite (trim_start_nows (rev s) (forallb_rev _ _ H)). apply rev_involutive.
+Qed.
+
+Lemma digit_facts : forall c, is_digit c = true -> is_ws c = false /\ upper c = c /\ c <> 75 /\ c <> 77 /\ c <> 71.
+Proof.
+  intros c H. unfold is_digit in H. apply andb_true_iff in H. destruct H as [H1 H2].
+  apply N.leb_le in H1. apply N.leb_le in H2. unfold is_ws, upper.
+  repeat split; try lia.
+  - destruct (9 <=? c) eqn:A, (c <=? 13) eqn:B, (c =? 32) eqn:C; cbn [andb orb]; try reflexivity;
+      try (apply N.leb_le in B; lia); apply N.eqb_eq in C; lia.
+  - destruct (97 <=? c) eqn:A; cbn [andb]; [apply N.leb_le in A; lia | reflexivity].
+Qed.
+
+Lemma digits_nows : forall ds, forallb is_digit ds = true -> forallb (fun c => negb (is_ws c)) ds = true.
+Proof.
+  intros ds H. apply forallb_forall. intros x Hx. rewrite forallb_forall in H.
+  destruct (digit_facts x (H x Hx)) as (W & _). rewrite W. reflexivity.
+Qed.
+
+Lemma digits_upper : forall ds, forallb is_digit ds = true -> map upper ds = ds.
+Proof.
+  induction ds as [|c r IH]; intro H; [reflexivity|]. cbn [forallb] in H. apply andb_true_iff in H.
+  destruct H as [Hc Hr]. cbn [map]. rewrite (IH Hr). destruct (digit_facts c Hc) as (_ & U & _). rewrite U. reflexivity.
+Qed.
+
+Lemma strip_suffix_snoc : forall s x y, strip_suffix (s ++ [x]) y = if x =? y then Some s else None.
+Proof. intros. unfold strip_suffix. rewrite rev_app_distr. cbn [rev app]. rewrite rev_involutive. reflexivity. Qed.
+
+Lemma strip_suffix_digits : forall ds y, ds <> [] -> forallb is_digit ds = true -> is_digit y = false ->
+  strip_suffix ds y = None.
+Proof.
+  intros ds y Hne Hd Hy. destruct (exists_last Hne) as (s & x & ->).
+  rewrite strip_suffix_snoc. rewrite forallb_app in Hd. apply andb_true_iff in Hd. destruct Hd as [_ Hx].
+  cbn [forallb] in Hx. rewrite andb_true_r in Hx.
+  destruct (x =? y) eqn:E; [apply N.eqb_eq in E; congruence | reflexivity].
+Qed.
+
+(* a letter suffix: trimming and upper-casing leave  digits ++ [upper c] *)
+Lemma normalise_suffixed : forall ds c, forallb is_digit ds = true -> is_ws c = false ->
+  map upper (trim (ds ++ [c])) = ds ++ [upper c].
+Proof.
+  intros ds c Hd Hc. rewrite trim_nows.
+  - rewrite map_app, (digits_upper _ Hd). reflexivity.
+  - rewrite forallb_app, (digits_nows _ Hd). cbn [forallb]. rewrite Hc. reflexivity.
+Qed.
+
+Lemma parse_capacity_spec_proof : forall ck ds, ds <> [] -> forallb is_digit ds = true ->
+  (dec_value ds < two64 -> parse_capacity ck ds = Ok (dec_value ds)) /\
+  (forall c, c = 75 \/ c = 107 -> dec_value ds * 1024 < two64 ->
+     parse_capacity ck (ds ++ [c]) = Ok (dec_value ds * 1024)) /\
+  (forall c, c = 77 \/ c = 109 -> dec_value ds * 1048576 < two64 ->
+     parse_capacity ck (ds ++ [c]) = Ok (dec_value ds * 1048576)) /\
+  (forall c, c = 71 \/ c = 103 -> dec_value ds * 1073741824 < two64 ->
+     parse_capacity ck (ds ++ [c]) = Ok (dec_value ds * 1073741824)).
+Proof.
+  intros ck ds Hne Hd.
+  assert (K : forall v m, v * m < two64 -> mul_cap ck (Ok v) m = Ok (v * m)).
+  { intros v m H. unfold mul_cap. apply N.ltb_lt in H. rewrite H. reflexivity. }
+  split; [|split; [|split]].
+  - intro Hv. unfold parse_capacity. rewrite (trim_nows _ (digits_nows _ Hd)), (digits_upper _ Hd).
+    rewrite !strip_suffix_digits by (assumption || reflexivity).
+    rewrite (parse_usize_digits _ Hne Hd Hv). reflexivity.
+  - intros c Hc Hv. unfold parse_capacity.
+    rewrite normalise_suffixed by (assumption || (destruct Hc; subst; reflexivity)).
+    replace (upper c) with 75 by (destruct Hc; subst; reflexivity).
+    rewrite strip_suffix_snoc. cbn [N.eqb Pos.eqb].
+    rewrite (parse_usize_digits _ Hne Hd) by (unfold two64 in *; lia). cbn [parsed]. apply K. assumption.
+  - intros c Hc Hv. unfold parse_capacity.
+    rewrite normalise_suffixed by (assumption || (destruct Hc; subst; reflexivity)).
+    replace (upper c) with 77 by (destruct Hc; subst; reflexivity).
+    rewrite !strip_suffix_snoc. cbn [N.eqb Pos.eqb].
+    rewrite (parse_usize_digits _ Hne Hd) by (unfold two64 in *; lia). cbn [parsed].
+    rewrite K by (unfold two64 in *; lia). rewrite K by (unfold two64 in *; lia). f_equal. lia.
+  - intros c Hc Hv. unfold parse_capacity.
+    rewrite normalise_suffixed by (assumption || (destruct Hc; subst; reflexivity)).
+    replace (upper c) with 71 by (destruct Hc; subst; reflexivity).
+    rewrite !strip_suffix_snoc. cbn [N.eqb Pos.eqb].
+    rewrite (parse_usize_digits _ Hne Hd) by (unfold two64 in *; lia). cbn [parsed].
+    rewrite K by (unfold two64 in *; lia). rewrite K by (unfold two64 in *; lia).
+    rewrite K by (unfold two64 in *; lia). f_equal. lia.
 Qed.
